@@ -21,12 +21,12 @@ coqmk:
 	  coq_makefile -f _CoqProject -o Makefile.coq; else rm _CoqProject.new; fi'
 
 coq: coqmk
-	-cd coq && timeout 7200 $(MAKE) -f Makefile.coq -j16 -k --no-print-directory
+	-cd coq && timeout 3000 $(MAKE) -f Makefile.coq -j16 -k --no-print-directory COQC='timeout 900 coqc'
 	@echo "(a .v file that failed to compile above is reported by the check of its property)"
 
 # one property file and what it depends on
 coq/theories/%.vo: coqmk
-	@cd coq && timeout 7200 $(MAKE) -f Makefile.coq -j8 --no-print-directory theories/$*.vo
+	@cd coq && timeout 3000 $(MAKE) -f Makefile.coq -j8 --no-print-directory COQC='timeout 900 coqc' theories/$*.vo
 
 .PHONY: FORCE
 FORCE:
